@@ -64,7 +64,7 @@ def run(pid, tier):
             pid, a["violated"], chan.seq_key(inv, model_cex)))
 
     # ---- unbounded: TLAPS proof of the abstraction + TLC refinement check (C01, C02)
-    if pid in ("C01", "C02"):
+    if pid in ("C01", "C02", "C03"):
         pr = chan.holder_abs_proof_and_refinement(2 if quick else 3, workers=8 if quick else 14)
         cov["legs"]["P_tlaps_proof_and_refinement"] = pr
         if pr["refinement_violated"]:
